@@ -302,7 +302,7 @@ def c204(ctx):
             ctx.check(R, f, "release-on-error", not bad, "the error exit is preceded by release_compaction", "a failed compaction keeps its claim (its inputs can never be compacted again)", pt=e)
         for pt in rc:
             t = P.term_at(f, pt)
-            ctx.check(R, f, "release-same", "compaction" in K.var_names(f, t["args"][1]), "the claim released is the one that failed", "release_compaction is given a different claim", pt=pt)
+            ctx.check(R, f, "release-same", any(c.endswith("Version::next_compaction") for c in P.origin_calls(f, t["args"][1])), "the claim released is the one that failed", "release_compaction is given a different claim", pt=pt)
         # the claim handed to perform_compaction is the one chosen under the lock
         for pt in pc:
             ctx.check(R, f, "perform-chosen", any(c.endswith("Version::next_compaction") for c in P.origin_calls(f, P.term_at(f, pt)["args"][1])),
